@@ -48,6 +48,9 @@ type e struct {
 	m        sync.Mutex
 	l        *rate.Limiter
 	lastSeen time.Time
+	// Set by gc() (under m) when it decides to collect the bucket. From then
+	// on the bucket must not be used: its client gets a new one.
+	collected bool
 }
 
 // Creates a ClientLimiter.
@@ -64,12 +67,30 @@ func NewClientLimiter(opts ClientLimiterOpts) *ClientLimiter {
 }
 
 func (cl *ClientLimiter) AllowN(addr netip.Addr, now time.Time, n int) bool {
-	e, _ := cl.m.LoadOrCompute(cl.mask(addr), func() *e { return &e{l: rate.NewLimiter(rate.Limit(cl.opts.Limit), cl.opts.Burst)} })
-	e.m.Lock()
-	e.lastSeen = now
-	ok := e.l.AllowN(now, n)
-	e.m.Unlock()
-	return ok
+	key := cl.mask(addr)
+	for {
+		b, _ := cl.m.LoadOrCompute(key, func() *e { return &e{l: rate.NewLimiter(rate.Limit(cl.opts.Limit), cl.opts.Burst)} })
+		b.m.Lock()
+		if b.collected {
+			// gc() picked this bucket between our lookup and now. Tokens
+			// taken from it would be forgotten with it (and the client
+			// would find a full bucket next time). Drop it and start over.
+			b.m.Unlock()
+			cl.deleteBucket(key, b)
+			continue
+		}
+		b.lastSeen = now
+		ok := b.l.AllowN(now, n)
+		b.m.Unlock()
+		return ok
+	}
+}
+
+// deleteBucket removes b from the map, if the key still holds b.
+func (cl *ClientLimiter) deleteBucket(key netip.Addr, b *e) {
+	cl.m.Compute(key, func(old *e, loaded bool) (*e, bool) {
+		return old, !loaded || old == b
+	})
 }
 
 // Stop gc goroutine.
@@ -112,9 +133,14 @@ func (cl *ClientLimiter) gc() {
 		// A bucket that has not been refilled yet must be kept. Otherwise
 		// its client will get a fresh burst from a new bucket.
 		refilled := value.l.TokensAt(now) >= float64(cl.opts.Burst)
+		// The decision is made under the bucket's lock and is final: a
+		// request that got hold of the bucket before it is off the map
+		// sees the mark and does not use it.
+		collect := lastSeen.Before(ddl) && refilled
+		value.collected = collect
 		value.m.Unlock()
-		if lastSeen.Before(ddl) && refilled {
-			cl.m.Delete(key)
+		if collect {
+			cl.deleteBucket(key, value)
 		}
 		return true
 	})
